@@ -118,6 +118,9 @@ func (s *Session) Consume(p Pack) {
 	defer buffers.Put(buf)
 	p2 := p.(*rtsp.RTPPack)
 	p2.Write(buf, s.transport.Channels[:])
+	if buf.Len() == 0 { // 该通道未订阅：不能发送空的 websocket 消息
+		return
+	}
 
 	var err error
 	simhook.BeforeLock(&s.lockW)
